@@ -98,24 +98,6 @@ example : checkValidPath true .ok (str "/d/f") = some (str "d/f") := by decide
 example : checkValidPath true (.rewrite (str "/x/../y")) (str "/d/f") = none := by decide
 example : checkValidPath true .ok (str "/") = some (str ".") := by decide
 
-/-! ### load_object -/
-
-theorem load_open_confined (name : CStr) (ex : CStr → Bool) (a : LoadAccess) (p : CStr)
-    (h : loadAccess name ex = some a) (hp : a.opened = some p) : safe p = true := by
-  unfold loadAccess at h
-  split at h
-  · cases h
-  · split at h
-    · cases h
-      simp only at hp
-      split at hp
-      · cases hp; exact legal_path_safe _ ‹_›
-      · cases hp
-    · cases h; cases hp
-
-example : loadAccess (str "/d/obj.c") (fun _ => true) =
-    some { probe := str "d/obj.c", opened := some (str "d/obj.c") } := by decide
-
 /-- `strip_name` never yields an absolute name (all leading slashes are removed). -/
 theorem strip_name_relative (s r : CStr) (n : Nat) (h : stripName s n = some r) : absolute r = false := by
   unfold stripName at h
@@ -150,47 +132,89 @@ theorem strip_name_relative (s r : CStr) (n : Nat) (h : stripName s n = some r) 
 example : stripName (str "//d/obj.c.c") = some (str "d/obj") := by decide
 example : stripName (str "/a//b") = none := by decide
 
-/-- the existence probe `stat (real_name)` of `load_object` is never absolute … -/
-theorem load_probe_relative (name : CStr) (ex : CStr → Bool) (a : LoadAccess)
-    (h : loadAccess name ex = some a) : absolute a.probe = false := by
-  unfold loadAccess loadRealName at h
-  cases hs : stripName name with
-  | none => simp [hs] at h
-  | some r =>
-    have hr := strip_name_relative name r _ hs
-    simp only [hs, Option.map_some] at h
-    have : a.probe = r ++ ['.', 'c'] := by
-      split at h <;> (cases h; rfl)
-    rw [this]
-    unfold absolute at hr ⊢
-    cases r with
-    | nil => decide
-    | cons c r' => simpa using hr
+/-! ### load_object -/
+
+/-- every path `load_object` (repaired: `legal_path` before `stat`) passes to the file system — the
+    existence probe `stat (real_name)` and the `open` of the source — is relative and has no ".."
+    component, for ALL object names. -/
+theorem load_probe_confined (name : CStr) (ex : CStr → Bool) (a : LoadAccess) (p : CStr)
+    (h : loadAccess name ex = some a) (hp : a.probe = some p ∨ a.opened = some p) : safe p = true := by
+  unfold loadAccess at h
+  cases hr : loadRealName name with
+  | none => simp [hr] at h
+  | some rn =>
+    simp only [hr] at h
+    by_cases hl : legalPath rn = true
+    · simp only [hl, ↓reduceIte, Option.some.injEq] at h
+      subst h
+      rcases hp with hp | hp
+      · simp only [Option.some.injEq] at hp; subst hp; exact legal_path_safe _ hl
+      · simp only at hp
+        split at hp
+        · simp only [Option.some.injEq] at hp; subst hp; exact legal_path_safe _ hl
+        · cases hp
+    · simp only [hl, Bool.false_eq_true, ↓reduceIte, Option.some.injEq] at h
+      subst h
+      rcases hp with hp | hp <;> cases hp
+
+theorem load_open_confined (name : CStr) (ex : CStr → Bool) (a : LoadAccess) (p : CStr)
+    (h : loadAccess name ex = some a) (hp : a.opened = some p) : safe p = true :=
+  load_probe_confined name ex a p h (Or.inr hp)
+
+example : loadAccess (str "/d/obj.c") (fun _ => true) =
+    some { probe := some (str "d/obj.c"), opened := some (str "d/obj.c") } := by decide
+example : loadAccess (str "../x") (fun _ => true) = some { probe := none, opened := none } := by decide
 
 /-! ### #include -/
 
 /-- every path `inc_open` (repaired: the normalised name must pass `legal_path`) hands to `open()` is
     relative and has no ".." component, for ALL including files and include names, provided the
-    configured include directories are non-empty legal paths (which `set_inc_list` enforces except for
-    the empty string, see notes/C15.md). -/
+    include directories are non-empty legal paths — which `set_inc_list` guarantees, see `inc_dir_ok`. -/
 theorem include_path_confined (dirs : List CStr) (base name p : CStr)
     (hd : ∀ d ∈ dirs, d ≠ [] ∧ legalPath d = true)
     (hp : p ∈ incTries true dirs base name) : safe p = true := by
   unfold incTries at hp
-  rcases List.mem_append.mp hp with h | h
-  · split at h
-    · rename_i hl
-      simp only [Bool.not_true, Bool.false_or] at hl
-      simp only [List.mem_singleton] at h
-      subst h
-      exact legal_path_safe _ hl
-    · cases h
-  · split at h
-    · cases h
-    · rename_i hn
-      obtain ⟨d, hdm, rfl⟩ := List.mem_map.mp h
-      obtain ⟨h0, hl⟩ := hd d hdm
-      exact fallback_safe d name h0 (legal_path_secure d hl) (by simpa using hn)
+  split at hp
+  · cases hp
+  · rcases List.mem_append.mp hp with h | h
+    · split at h
+      · rename_i hl
+        simp only [Bool.not_true, Bool.false_or] at hl
+        simp only [List.mem_singleton] at h
+        subst h
+        exact legal_path_safe _ hl
+      · cases h
+    · split at h
+      · cases h
+      · rename_i hn
+        obtain ⟨d, hdm, rfl⟩ := List.mem_map.mp h
+        obtain ⟨h0, hl⟩ := hd d (List.mem_filter.mp hdm).1
+        exact fallback_safe d name h0 (legal_path_secure d hl) (by simpa using hn)
+
+/-- what `set_inc_list` stores for a configured entry is a non-empty legal path ("/" and "" become ".") -/
+theorem inc_dir_ok (entry d : CStr) (h : incDirOf entry = some d) : d ≠ [] ∧ legalPath d = true := by
+  unfold incDirOf at h
+  simp only at h
+  generalize hq : (if stripOneSlash entry = [] then ['.'] else stripOneSlash entry) = q at h
+  have hne : q ≠ [] := by
+    rw [← hq]; split
+    · simp
+    · assumption
+  by_cases hl : legalPath q = true
+  · simp only [hl, ↓reduceIte, Option.some.injEq] at h
+    subst h
+    exact ⟨hne, hl⟩
+  · simp [hl] at h
+
+/-- `include_path_confined` for ANY configured include search path -/
+theorem include_path_confined_config (entries : List CStr) (base name p : CStr)
+    (hp : p ∈ incTries true (entries.filterMap incDirOf) base name) : safe p = true :=
+  include_path_confined _ base name p
+    (fun d hd => by
+      obtain ⟨e, _, he⟩ := List.mem_filterMap.mp hd
+      exact inc_dir_ok e d he) hp
+
+example : [str "/include", str "/", str "/a/../b"].filterMap incDirOf = [str "include", str "."] := by decide
 
 example : incTries true [str "include"] (str "room/x.c") (str "../std.h") = [str "std.h"] := by decide
 example : incTries true [str "include"] (str "room/x.c") (str "std.h") = [str "room/std.h", str "include/std.h"] := by
